@@ -38,6 +38,14 @@ fn main() {
             }
         }
     }
+    if args.len() >= 3 {
+        let (pid, tier) = match args[1].as_str() {
+            "C17-sched-child" => ("C17".to_string(), args[2].clone()),
+            "C15-child" => ("C15".to_string(), args[2].clone()),
+            other => (other.to_string(), args[2].clone()),
+        };
+        report::start_main_watchdog(pid, tier);
+    }
     if args.len() >= 5 && args[1] == "C17-sched-child" {
         std::process::exit(e5::sched_child(&args[2], args[3].parse().unwrap_or(0), args[4].parse().unwrap_or(1)));
     }
